@@ -343,7 +343,12 @@ class P_xcfg(StructureParser):
         # if stru came from xcfg file, it would store original auxiliaries in
         # xcfg dictionary
         try:
-            p_auxiliaries = [(aux, "a." + aux) for aux in stru.xcfg["auxiliaries"]]
+            p_auxiliaries = [
+                (aux, "a." + aux)
+                for aux in stru.xcfg["auxiliaries"]
+                # occupancy and displacement parameters are regenerated below
+                if not re.match(r"(occupancy|[BU]iso|[BU][123][123])$", aux)
+            ]
         except AttributeError:
             p_auxiliaries = []
         # add occupancy if any atom has nonunit occupancy
